@@ -325,7 +325,7 @@ func execRun(r *Run, dir string) {
 	t0 := time.Now()
 	limit := 240 * time.Second
 	if r.Race {
-		limit = 1800 * time.Second
+		limit = 900 * time.Second
 	}
 	if r.Kind == "race-repo" {
 		limit = 3 * time.Hour
